@@ -73,6 +73,7 @@ def procvar_group(case, fast):
     both execute the case's assignment statements through the real descriptors.  A variable with `alias: k` links the
     very PacketVar object of variable k; `prior: {devs}` first runs one cycle of those devices in a slow sync group of
     their own (all-zero process data and DeviceVars), as if they had been used in an earlier group."""
+    import struct
     from ebpfcat.ebpfcat import (FastSyncGroup, SyncGroup, SyncManager, EBPFTerminal, Device, TerminalVar,
                                  DeviceVar, PacketDesc, ProcessDesc, Struct)
     ec = _FakeEC()
@@ -138,8 +139,11 @@ def procvar_group(case, fast):
                 if d["dev"] in case["prior"]["devs"]:
                     setattr(devs[d["dev"]], f"dv{j}", 0)
             frame = bytes(prior.current_data)
-            for dev in pdevs:
-                dev.update()
+            try:
+                for dev in pdevs:
+                    dev.update()
+            except struct.error:      # overlapping variables may make a value unrepresentable: the cycle ends there
+                pass
             prior = {"sg": prior, "frame": frame}
         sg = SyncGroup(ec, devs)
         sg.allocate()
